@@ -58,4 +58,30 @@ theorem c19_gen_Value_Collect_eq (t : Gen.C19.Value α) :
     cases h1 : Num.lt x mn <;> cases h2 : Num.lt mx x <;> cases k <;>
       simp [Value.ofGen, Value.step, zero, h1, h2, e1, e2, e3, e4, e5, e6, e7, e8, e9, e10, e11, e12, e13, e14]
   · exact ⟨rfl, Int.le_refl 0⟩
+
+/-- the translated rule read as the model's -/
+def Rule.ofGen (r : Gen.C19.bucketRule α) : Rule := { low := r.low, high := r.high }
+
+/-- **`bucketRule.Match` as translated is the model's `Rule.matches`**: lower bound inclusive, upper bound exclusive -/
+theorem c19_gen_bucketRule_Match_eq (r : Gen.C19.bucketRule α) (i : Int) :
+    Gen.C19.bucketRule_Match r i = (Rule.ofGen r).matches i := by
+  rw [Bool.eq_iff_iff]
+  simp only [Gen.C19.bucketRule_Match, Rule.matches, Rule.ofGen, Bool.and_eq_true, decide_eq_true_iff, ge_iff_le]
+  exact ⟨fun h => ⟨decide_eq_true h.1, decide_eq_true h.2⟩, fun h => ⟨of_decide_eq_true h.1, of_decide_eq_true h.2⟩⟩
+
+/-- **`bucketRules.Match` as translated is the model's `rulesMatch`**: a negative host index matches nothing, any
+other index matches when one of the rules does (the loop returns at the first rule that matches) -/
+theorem c19_gen_bucketRules_Match_eq (rr : List (Gen.C19.bucketRule α)) (h : Int) :
+    Gen.C19.bucketRules_Match rr h = rulesMatch (rr.map Rule.ofGen) h := by
+  unfold Gen.C19.bucketRules_Match rulesMatch
+  by_cases hn : h < 0
+  · simp [hn]
+  · simp only [hn, decide_false, Bool.false_eq_true, if_false]
+    induction rr with
+    | nil => simp [Gen.Rt.rangeReturn]
+    | cons r rest ih =>
+      simp only [Gen.Rt.rangeReturn, List.findSome?_cons, List.map_cons, List.any_cons, c19_gen_bucketRule_Match_eq] at ih ⊢
+      cases hm : (Rule.ofGen r).matches h
+      · simpa using ih
+      · simp
 end C19
